@@ -113,10 +113,9 @@ Theorem C10_order_irrelevant : forall (ops ops' : list op) (st : txb) (flags : l
                                       (st' : txb) (flags' : list bool) (b' : built),
   Permutation ops ops' -> distinct_items ops ->
   run ops = (st, flags) -> tx_build st = Ok b -> run ops' = (st', flags') -> tx_build st' = Ok b' ->
-  known_collateral_plutus ops = false -> known_stale_spend ops = false ->
-  known_collateral_plutus ops' = false -> known_stale_spend ops' = false ->
+  known_collateral_plutus ops = false -> known_collateral_plutus ops' = false ->
   forall r, r_tag r <> TCert -> (In r (b_redeemers b) <-> In r (b_redeemers b')).
-Proof. exact c10_order_irrelevant. Qed.
+Proof. exact c10_order_irrelevant_sets. Qed.
 Print Assumptions C10_order_irrelevant.
 
 (* the orders the code sorts / ranks by are the ledger's orders, and has_required_script_witness is the ledger's table *)
@@ -201,3 +200,8 @@ Check (eq_refl : map (fun p => voter_ledger_ltb (fst p) (snd p))
 (* the certificate table: kinds that take a script witness when the credential is a script hash *)
 Check (eq_refl : map (fun k => ledger_cert_script_locked (mkCert k true 0)) [0;1;2;3;4;5;6;7;8;9;10;11;12;13;14;15;16;17;18;19]
   = [false;true;true;false;false;false;false;true;true;true;true;true;true;true;true;true;true;true;true;false]).
+
+(* for pairwise distinct items (the property's own quantifier: SETS of items) the stale-witness class is empty *)
+Theorem C10_distinct_items_no_stale : forall ops : list op, distinct_items ops -> known_stale_spend ops = false.
+Proof. exact distinct_items_no_stale. Qed.
+Print Assumptions C10_distinct_items_no_stale.
